@@ -131,6 +131,17 @@ func runC14(ctx *Ctx) {
 			}
 		}
 	}
+	// annotations in every spelling of their delimiters (runs of '*' and '/' around the text), followed by more directives
+	// and a later closing delimiter
+	for _, open := range []string{"/*", "/**", "/***", "/*/", "//", "///", "/* *"} {
+		for _, text := range []string{"", " t ", "t", " a * b ", " a */ b ", " a / b ", "*", " ** "} {
+			for _, cl := range []string{"*/", "**/", "***/", "****/", "* /", "/*/", "*/*/", ""} {
+				for _, rest := range []string{"", "\nGET /dogs /* d */", "\nGET /dogs // d", " GET /dogs /* d */\nPOST /x", "\n\nTYPE @a\n{} /* in schema */\nGET /c /* c **/\n"} {
+					inputs = append(inputs, []byte("JSIGHT 0.3\nGET /cats "+open+text+cl+rest))
+				}
+			}
+		}
+	}
 	fixtures := fixtureFiles()
 	var fixtureContents [][]byte
 	for _, f := range fixtures {
@@ -225,6 +236,18 @@ func checkLexemes(in []byte, lexs []Lex, names map[string]bool) string {
 		case 'K':
 			if !names[string(val)] && !directive.IsHTTPResponseCode(string(val)) {
 				return fmt.Sprintf("keyword lexeme does not spell a directive: %q", val)
+			}
+		case 'A':
+			// an annotation lexeme is the text between its delimiters: a block annotation ends at the FIRST "*/"
+			// after its opening (it cannot run over a closing delimiter), a line annotation ends with its line
+			if l.B >= 2 && string(in[l.B-2:l.B]) == "/*" {
+				if j := bytes.Index(in[l.B:], []byte("*/")); j >= 0 && uint(j) != l.E1-l.B {
+					return fmt.Sprintf("annotation lexeme does not end at the first closing delimiter: [%d,%d) while the first \"*/\" after the opening stands at %d", l.B, l.E1, l.B+uint(j))
+				}
+			} else if l.B >= 2 && string(in[l.B-2:l.B]) == "//" {
+				if bytes.ContainsAny(val, "\n\r") {
+					return fmt.Sprintf("annotation lexeme of a line annotation runs over a line end: [%d,%d)", l.B, l.E1)
+				}
 			}
 		case 'S', 'E':
 			want := LibLen(in, int(l.B), l.Ty == 'E')
